@@ -111,7 +111,7 @@ func optClass(c WireCfg) map[string]string {
 
 func attrClass(cls string) string {
 	switch cls {
-	case "pubA", "pubB":
+	case "pubA", "pubB", "stime":
 		return "public"
 	case "prefix":
 		return "reserved-prefix"
@@ -166,6 +166,8 @@ func RunAd(sc *AdScenario, obs *AdObs) *AdDiff {
 		}
 	}
 	// ---- Put on the real stream, every emitted byte captured
+	var rawItems []string // the texts handed to a raw sender
+	var shared, sharedCopy []byte
 	raw, err := Send(sc.Cfg.St, key, func(m *message.Message) error {
 		var err error
 		switch sc.Sender {
@@ -178,6 +180,7 @@ func RunAd(sc *AdScenario, obs *AdObs) *AdDiff {
 			for _, a := range sc.Attrs {
 				items = append(items, a.Name+" = "+a.Value)
 			}
+			rawItems = items
 			mt, tt := "", ""
 			if sc.Types == "both" {
 				mt, tt = sc.MyType, sc.TargetType
@@ -185,10 +188,20 @@ func RunAd(sc *AdScenario, obs *AdObs) *AdDiff {
 			if sc.Sender == "PutClassAdRaw" {
 				err = m.PutClassAdRaw(bg, items, mt, tt)
 			} else {
+				// the documented usage: all expressions rendered back to back into ONE
+				// scratch buffer, passed as sub-slices (cap > len); the buffer stays the caller's
 				bs := make([][]byte, len(items))
+				shared = make([]byte, 0, 64)
+				offs := make([]int, len(items)+1)
 				for i := range items {
-					bs[i] = []byte(items[i])
+					shared = append(shared, items[i]...)
+					offs[i+1] = len(shared)
 				}
+				shared = append(shared, "<end of the caller's scratch buffer>"...)
+				for i := range items {
+					bs[i] = shared[offs[i]:offs[i+1]]
+				}
+				sharedCopy = append([]byte(nil), shared...)
 				err = m.PutClassAdRawBytes(bg, bs, mt, tt)
 			}
 		default:
@@ -214,6 +227,16 @@ func RunAd(sc *AdScenario, obs *AdObs) *AdDiff {
 		s := base("Put")
 		s["what"] = "sender error"
 		return &AdDiff{s, fmt.Sprintf("%s fails: %v", sc.Sender, err)}
+	}
+	if shared != nil && !bytes.Equal(shared, sharedCopy) {
+		s := base("Put")
+		s["sender"] = sc.Sender
+		s["what"] = "caller's buffer modified"
+		k := 0
+		for k < len(shared) && shared[k] == sharedCopy[k] {
+			k++
+		}
+		return &AdDiff{s, fmt.Sprintf("PutClassAdRawBytes changed the caller's expression buffer at offset %d (%q -> %q)", k, trunc(sharedCopy), trunc(shared))}
 	}
 	// ---- what is on the wire, by the reference codec
 	frames, err := refcodec.C08OpenAll(raw, Opener(sc.Cfg.St, key), sc.Cfg.St == Enc)
@@ -256,10 +279,29 @@ func RunAd(sc *AdScenario, obs *AdObs) *AdDiff {
 	if sc.Trailer {
 		wantTail = append(wantTail, Trailer)
 	}
+	if len(wad.Tail) != len(wantTail) {
+		s := base("Put")
+		s["what"] = "count"
+		s["serverTime"] = fmt.Sprint(sc.Cfg.Opts&BitServerTime != 0)
+		return &AdDiff{s, fmt.Sprintf("the count in front of the ad says %d items, which leaves %q after them; the application wrote %q after the items: the count is not the number of items",
+			wad.Count, wad.Tail, wantTail)}
+	}
 	if fmt.Sprintf("%q", wad.Tail) != fmt.Sprintf("%q", wantTail) {
 		s := base("Put")
 		s["what"] = "type names"
 		return &AdDiff{s, fmt.Sprintf("after the items the wire carries %q, want %q", wad.Tail, wantTail)}
+	}
+	if rawSender {
+		var got []string
+		for _, it := range wad.Items {
+			got = append(got, it.Text)
+		}
+		if fmt.Sprintf("%q", got) != fmt.Sprintf("%q", rawItems) {
+			s := base("Put")
+			s["sender"] = sc.Sender
+			s["what"] = "raw items"
+			return &AdDiff{s, fmt.Sprintf("%s was given %q, the wire carries %q", sc.Sender, rawItems, got)}
+		}
 	}
 	// items -> outcome per attribute
 	type found struct {
@@ -276,6 +318,14 @@ func RunAd(sc *AdScenario, obs *AdObs) *AdDiff {
 			return &AdDiff{s, fmt.Sprintf("item %q is not Name = Value", it.Text)}
 		}
 		ln := strings.ToLower(n)
+		stimeDup := ln == "servertime" && sc.Cfg.Opts&BitServerTime != 0 && !rawSender
+		if _, dup := items[ln]; dup && stimeDup {
+			// the injected ServerTime next to the ad's own one: the statement is silent
+			if it.Secret {
+				obs.SecretItems++
+			}
+			continue
+		}
 		if _, dup := items[ln]; dup {
 			s := base("Put")
 			s["what"] = "duplicate item"
@@ -369,7 +419,7 @@ func RunAd(sc *AdScenario, obs *AdObs) *AdDiff {
 			}
 		}
 		// the item is the sender's rendering of the attribute
-		if ok && !rawSender {
+		if ok && !rawSender && !(a.Cls == "stime" && sc.Cfg.Opts&BitServerTime != 0) {
 			want := exprs[ln].String()
 			if strings.TrimSpace(f.val) != want {
 				s := base("Put")
@@ -489,6 +539,9 @@ func RunAd(sc *AdScenario, obs *AdObs) *AdDiff {
 					return &AdDiff{sig("attribute set"), fmt.Sprintf("%s on %s framing reconstructs a different attribute set: %s", kind, v.name, d)}
 				}
 				for _, ln := range order {
+					if ln == "servertime" && sc.Cfg.Opts&BitServerTime != 0 && !rawSender {
+						continue // the sender's or the injected value: either (statement silent)
+					}
 					f := items[ln]
 					o := Ask(f.val)
 					if !o.Accepts {
